@@ -157,15 +157,22 @@ def run_all(ctx, scenarios, tag=""):
     """run the scenarios, at most NCPU//3 at a time (each uses up to 4 workers + trackers)"""
     width = max(2, min(6, common.NCPU // 3))
     results = [None] * len(scenarios)
-    active, nxt = [], 0
+    active, nxt, hung = [], 0, 0
     while nxt < len(scenarios) or active:
         while nxt < len(scenarios) and len(active) < width:
-            active.append(run_scenario(ctx, nxt, scenarios[nxt], tag))
+            s = scenarios[nxt]
+            if hung >= 3 and s["kind"] != "mid_send":
+                # several scenarios already hit the watchdog (each is re-run with the full bound before it
+                # counts): do not spend a minute on each of the remaining ones
+                s = dict(s, watchdog=min(s["watchdog"], 20))
+            active.append(run_scenario(ctx, nxt, s, tag))
             nxt += 1
         still = []
         for h in active:
             if h["proc"].poll() is not None or time.time() - h["t0"] > h["hard"]:
                 results[h["idx"]] = collect(h)
+                if results[h["idx"]]["hung_call"] is not None and h["sc"]["kind"] != "mid_send":
+                    hung += 1
             else:
                 still.append(h)
         active = still
